@@ -60,7 +60,34 @@ func registerAll() {
 
 	reg("P8", "accessor totality: interface fields that ByteSize/ChildStorables/Size/Count dereference unconditionally are set by every slab/part literal built in decode scope", ruleP8)
 
+	reg("L5", "threshold arithmetic proven for every slab size t in [minSlabSize, maxSlabSize] by affine-interval abstract interpretation of setThreshold: min/max band, 16-bit fit, two maximal elements per slab (array, map), key+value fit, no unsigned underflow", ruleL5)
+
+	reg("L6", "inline-limit arguments: every Value.Storable call passes the limit of its container kind (array elements, map keys, map values sized from the same element's key)", ruleL6)
+	reg("L9", "rebalance decision: after a child mutation every success path evaluates child.IsFull / child.IsUnderflow and refreshes the parent's copy of the child header; handles evaluate root.IsFull and the single-child promotion test", ruleL9)
+	reg("L7", "co-update table: a write of a summarised field (element lists, child header tables, inlined flag) is accompanied on every success path by a write of its summary fields (size, count sums), possibly by a same-type callee or by every caller", ruleL7)
+
 	const tCFG = "CFG path rules on go/ssa (must-precede, edge dominance, loop-iteration coverage, error-edge reachability)"
+	propTable["C01"] = &PropSpec{
+		ID:    "C01",
+		Rules: []string{"L8", "L7", "L9", "R6", "L6"},
+		Explanation: "structural necessary conditions of sequence behaviour: whatever replaces the root carries the id read from the previous root (so the array can always be reopened by its identifier); every write of an element list or child header table is accompanied on every success path by the matching size / count / cumulative-count update; after a child mutation every success path evaluates the split / merge decision and refreshes the parent's header copy, and the handle evaluates root.IsFull and single-child promotion; out-of-range requests are rejected before any effect; elements are materialised with the array's inline limit.",
+		NotDecided: "that returned elements equal the sequence model: index routing (linear scan / binary search over cumulative counts), split/merge/borrow arithmetic and 'in-range requests never fail' are value-dependent and not decided statically.",
+		Technique:  "co-update path rules, must-pass-through rules and reject-before-effect typestate over go/ssa",
+	}
+	propTable["C02"] = &PropSpec{
+		ID:    "C02",
+		Rules: []string{"L10", "L7", "L9", "R6", "K1", "L6"},
+		Explanation: "structural necessary conditions of dictionary behaviour: the element count changes exactly on (Set succeeded, no existing value) and on successful Remove; digests, elements and cached sizes are co-updated on every success path; the split / merge decision and header refresh follow every child mutation; absent keys and the collision limit are reported before any effect; keys and values are materialised with the key limit and a value limit derived from the same element's key.",
+		NotDecided: "dictionary equivalence, digest routing (binary search over sorted digests), collision-group semantics: value-dependent.",
+		Technique:  "control-dependence and co-update path rules, reject-before-effect typestate",
+	}
+	propTable["C05"] = &PropSpec{
+		ID:    "C05",
+		Rules: []string{"L5", "L6", "L9", "L7"},
+		Explanation: "for EVERY slab size t in [minSlabSize, maxSlabSize] (affine-interval abstract interpretation of setThreshold, not a sample): minThreshold is t/2, maxThreshold is 1.5t and fits the 16-bit size fields, two maximal array elements plus the slab prefix fit in t, two maximal map elements plus digests and prefixes fit in t, a maximal key plus an equal value fit the element limit, and no unsigned subtraction underflows; every element is materialised with the limit of its container kind; every mutation path runs the full / underflow decision and refreshes the index data it summarises (sizes, counts, cumulative counts, header copies).",
+		NotDecided: "that split, lend/borrow and merge choose points that keep both sides inside the band (depends on element sizes); sortedness/uniqueness of digests and sibling links (value-level).",
+		Technique:  "affine-interval abstract interpretation (exhaustive over the symbolic slab size), value-flow checks on Storable() limits, must-pass-through path rules",
+	}
 	propTable["C03"] = &PropSpec{
 		ID:    "C03",
 		Rules: []string{"R1", "R2", "R4", "S1", "S2", "S4", "S5"},
